@@ -15,7 +15,18 @@ use std::sync::Arc;
 
 pub struct C14;
 
-pub const KINDS: [&str; 6] = ["global_function", "prefix_op", "infix_op", "postfix_op", "ctx_function_call", "ctx_function_bare_name"];
+pub const KINDS: [&str; 8] = [
+    "global_function",
+    "prefix_op",
+    "infix_op",
+    "postfix_op",
+    "ctx_function_call",
+    "ctx_function_bare_name",
+    // a user-registered SETTER operator: its handler runs between reading and writing the context
+    "setter_infix_op",
+    // a context function that is the TARGET of a compound assignment (`f += 1` evaluates f first)
+    "ctx_function_compound_target",
+];
 pub const ACTIONS: [&str; 10] = [
     "parse_expression",
     "execute_new_context",
@@ -28,8 +39,17 @@ pub const ACTIONS: [&str; 10] = [
     "execute_on_shared_handle",
     "dump_own_context",
 ];
-pub const POSITIONS: [&str; 4] = ["root", "nested_operand", "conditional_then", "conditional_else"];
+pub const POSITIONS: [&str; 6] = [
+    "root",
+    "nested_operand",
+    "conditional_then",
+    "conditional_else",
+    // only with register_function: the handler is an ARGUMENT of the very function it registers / replaces
+    "argument_of_function_it_registers",
+    "argument_of_function_it_replaces",
+];
 
+/// kinds whose handler may lock / evaluate on the evaluating context's handle
 fn is_ctx_kind(k: usize) -> bool {
     k >= 4
 }
@@ -43,6 +63,9 @@ pub fn matrix() -> Vec<(usize, usize, usize)> {
                 continue;
             }
             for p in 0..POSITIONS.len() {
+                if p >= 4 && (a != 2 || k >= 6) {
+                    continue;
+                }
                 v.push((k, a, p));
             }
         }
@@ -117,9 +140,17 @@ fn invoking_node(case: &mut Case, k: usize, h: usize, name: &str) -> Expr {
             case.slots[0].funcs.push((name.into(), h));
             call(name, vec![lit_i(1)])
         }
-        _ => {
+        5 => {
             case.slots[0].funcs.push((name.into(), h));
             rf(name)
+        }
+        6 => {
+            case.pre.push(Op::RegIn { name: name.into(), prec: 20, setter: true, right: true, h });
+            bin(name, rf("sv"), lit_i(5))
+        }
+        _ => {
+            case.slots[0].funcs.push((name.into(), h));
+            bin("+=", rf(name), lit_i(1))
         }
     }
 }
@@ -128,7 +159,7 @@ fn hkind(k: usize) -> HKind {
     match k {
         0 => HKind::Func,
         1 => HKind::Prefix,
-        2 => HKind::Infix,
+        2 | 6 => HKind::Infix,
         3 => HKind::Postfix,
         _ => HKind::CtxFunc,
     }
@@ -139,7 +170,9 @@ fn at_position(p: usize, node: Expr) -> Expr {
         0 => node,
         1 => Expr::List(vec![lit_i(1), node]),
         2 => tern(lit_b(true), node, lit_i(0)),
-        _ => tern(lit_b(false), lit_i(0), node),
+        3 => tern(lit_b(false), lit_i(0), node),
+        // nf(<node>): the callee is registered (4) or replaced (5) while its argument is evaluated
+        _ => call("nf", vec![node]),
     }
 }
 
@@ -147,7 +180,14 @@ pub fn matrix_case(k: usize, a: usize, p: usize) -> Case {
     let mut case = Case::new(&format!("matrix:{}:{}:{}", KINDS[k], ACTIONS[a], POSITIONS[p]));
     case.slots.push(CtxSpec { vars: vec![("x".into(), Val::int(1))], funcs: vec![] });
     let (ops, later, ret) = action(&mut case, a);
+    // a DumpSlot / constant return for the kinds whose value is used arithmetically
+    let ret = if k == 7 && matches!(ret, Ret::DumpSlot(_)) { Ret::Const(Val::int(7)) } else { ret };
     let h = case.add_handler(HandlerSpec { kind: hkind(k), ret, actions: ops });
+    if p == 5 {
+        // the function the handler re-registers already exists (with another handler)
+        let old = marker(&mut case, HKind::Func);
+        case.pre.push(Op::RegFn { name: "nf".into(), h: old });
+    }
     let node = invoking_node(&mut case, k, h, "hh");
     let mut stmts = vec![bin("=", rf("y"), lit_i(5)), bin("=", rf("r"), at_position(p, node))];
     if let Some(l) = later.clone() {
@@ -180,8 +220,9 @@ fn nested_case(r: &mut Prng) -> Case {
     // build from the innermost handler outwards
     let mut inner_prog: Option<(Expr, Vec<(String, usize)>)> = None; // program + ctx functions it needs
     for level in (0..depth).rev() {
-        let k = r.usize(KINDS.len());
-        let name = format!("n{}", level);
+        let k = r.usize(6);
+        // context functions of different levels live in different contexts: they may share one identifier
+        let name = if k >= 4 && r.chance(1, 2) { "total".to_string() } else { format!("n{}", level) };
         let mut actions = vec![];
         // besides evaluating the next level, maybe one more re-entrant action
         if let Some((prog, funcs)) = inner_prog.take() {
@@ -289,9 +330,9 @@ impl Prop for C14 {
             id: "C14",
             level: "fault_enumeration",
             rule: "exhaustive part: every existing cell of handler kind {global function, prefix, infix, postfix, context function by call, context function by \
-                   bare name} x re-entrant action {parse_expression, execute on a new context, register_function/prefix/infix/postfix, and for context \
+                   bare name, user-registered SETTER operator, context function as the target of a compound assignment} x re-entrant action {parse_expression, execute on a new context, register_function/prefix/infix/postfix, and for context \
                    functions: lock the evaluating context's handle and read / write it / evaluate on a Context sharing it / dump it} x program position {root, \
-                   nested operand, then-branch, else-branch} = 176 cases, all run on every invocation; sampled part: seeded chains of 2..4 re-entrant \
+                   nested operand, then-branch, else-branch, and for register_function: as an argument of the very function it registers / replaces} = 268 cases, all run on every invocation; sampled part: seeded chains of 2..4 re-entrant \
                    handlers each evaluating a program that invokes the next, in a third of them with a bystander thread that registers and evaluates concurrently \
                    (seeded schedules). Fresh simulated process per case. evaluations = simulated \
                    executions; distinct_nontrivial = distinct cases in which at least one re-entrant action was actually performed inside a handler",
